@@ -1038,6 +1038,13 @@ def has_boolop(c):
     return c[0] == "not" and has_boolop(c[1])
 
 
+def simple_boolop(c):
+    """not* (a and/or b) with a, b free of and/or: the end-to-end value is Model.narrow_e2e exactly."""
+    while c[0] == "not":
+        c = c[1]
+    return c[0] in ("and", "or") and not has_boolop(c[1]) and not has_boolop(c[2])
+
+
 def leaves_of(c):
     if c[0] == "pat":
         return []
@@ -1333,7 +1340,7 @@ def run(tier: str, replay: str | None = None):
             return not collection_sval(sv) or collection_leaf(l)
 
         cases += [((sv,), l) for sv in svals for l in leaves if tier == "thorough" or in_quick(sv, l)]
-        n_rand = 500 if tier == "quick" else 40000
+        n_rand = 500 if tier == "quick" else 25000
         for _ in range(n_rand):
             cases.append((gen_value(rng, svals), gen_cond(rng, leaves, 2)))
     objs = universe_objects()
@@ -1368,7 +1375,8 @@ def run(tier: str, replay: str | None = None):
         def model_term(v, c, full):
             return (f"(let V := {value_coq(v)} in let c := {cond_coq(c)} in "
                     "let Np := narrow V c true in let Nn := narrow V c false in "
-                    "(Np, Nn, boolab_of V, " + (FULL_TAIL if full else "@nil N") + "))")
+                    "(Np, Nn, boolab_of V, " + (FULL_TAIL if full else "@nil N") + ", "
+                    + ("(narrow_e2e V c true, narrow_e2e V c false)" if simple_boolop(c) else "(@nil sval, @nil sval)") + "))")
 
         # every case: both narrowed values and the boolability; the per-object facts (spec vs CPython,
         # guard clauses) for every case in the thorough tier / a replay, for 1 case in 5 in the quick
@@ -1480,6 +1488,13 @@ def run(tier: str, replay: str | None = None):
                         hist["oof"] += 1
                     continue
                 if out is None:
+                    continue
+                if rname == "e2e" and simple_boolop(c):
+                    # visit_BoolOp's scope merge is modelled (Model.narrow_e2e): exact comparison
+                    if m is not None:
+                        me = model_value(mt[4][0 if pol else 1])
+                        if out != me:
+                            corr.append((i, f"{rname}:{pol}:narrow_e2e", sorted(map(str, out)), sorted(map(str, me))))
                     continue
                 if rname == "e2e" and has_boolop(c):
                     # visit_BoolOp merges the scopes of its operands back into x (the value the
